@@ -20,12 +20,16 @@ therefore the list of entries it tries to insert, in order (`emit…`), and the 
 `build (emit…) = foldl insertIfAbsent []`.  The sorted-list invariant is a separate theorem
 (`Lemmas/MergeMap.lean: build_sorted`).
 
-Order of keys.  Rust orders `NormalizationKey`s by interned-string ids and by the SOURCE LOCATIONS embedded in
-object / list argument values; neither is modelled.  Keys are ordered by an injective-by-construction
-encoding into `List Nat` (any strict total order gives the same map up to the order of its entries; the
-driver prints entries sorted by their text).  What IS modelled of the locations is key IDENTITY: an
-argument value that embeds source locations (object or list literal) carries the identity of its source
-occurrence (`LArg.site`), and two keys are equal only if these agree — as in the implementation.
+Order of keys.  Rust orders `NormalizationKey`s by the derived `Ord`: variant, then name and argument
+values by string CONTENT (`StringId: Ord` compares `as_str()`, not interning order), and — inside object /
+list argument values — by the SOURCE LOCATIONS embedded there.  The map operations and all theorems use a
+different, location-free order: keys are ordered by an encoding into `List Nat` (any strict total order
+gives the same map up to the order of its entries).  The implementation's order is transcribed separately
+at the end of this file (`cmpKey`); the driver prints maps in that order and the correspondence compares
+them with the implementation's iteration order.  What the MAP models of the locations is key IDENTITY:
+an argument value that embeds source locations (a non-empty object or list literal) carries the identity
+of its source occurrence (`LArg.site`), and two keys are equal only if these agree — as in the
+implementation.
 
 Outcomes that are panics in Rust are explicit: `Payload.panic` entries.
 Not modelled: refetch-path bookkeeping (`ScalarClientFieldTraversalState`), the separate maps of `@loadable`
@@ -437,5 +441,123 @@ def projectCoherent (p : Project) : Bool :=
       match fieldEmit p (defaultFuel p) d.parent d.name with
       | some l => coherentB l
       | none => true
+
+/-! ### the implementation's ORDER of keys
+
+`NormalizationKey` derives `Ord`: the variant, then `NameAndArguments { name, arguments }` field by field;
+names and string values compare by CONTENT (`StringId: Ord` compares `as_str()`); an
+`ArgumentKeyAndValue` compares its key, then its value by `NonConstantValue`'s derived `Ord` (variant
+rank `Variable < Integer < Boolean < String < Float < Null < Enum < List < Object`); inside a list every item,
+inside an object every field NAME and every field value is a `WithEmbeddedLocation`, compared item first,
+then location — so two object literals with the same first field name are ordered by WHERE they were
+written before their values are even looked at.  Locations (`file, span of the literal, span inside it`) are
+ordered like the source positions `LArg.site` stands for.  None of the theorems depends on this order; the
+driver uses it to print a map the way the implementation iterates it. -/
+
+def cmpLex {α : Type} (cmp : α → α → Ordering) : List α → List α → Ordering
+  | [], [] => .eq
+  | [], _ :: _ => .lt
+  | _ :: _, [] => .gt
+  | a :: as, b :: bs =>
+    match cmp a b with
+    | .eq => cmpLex cmp as bs
+    | o => o
+
+def cmpNat (a b : Nat) : Ordering := compare a b
+def cmpStr (a b : String) : Ordering := compare a b
+
+/-- source file of declaration number `d` -/
+def fileOf (p : Project) (d : Nat) : String :=
+  match p.decls[d]? with
+  | some fd => fd.1
+  | none => ""
+
+/-- `(declaration, position inside the literal)`: variable defaults come before the selection set; a
+selection's arguments come before the arguments of its sub-selections -/
+def siteKey : List Nat → List Nat × Nat
+  | 0 :: d :: rest => (d :: 1 :: rest.dropLast, rest.getLast?.getD 0)
+  | 1 :: d :: v :: _ => ([d, 0], v)
+  | _ => ([], 0)
+
+def siteDecl : List Nat → Nat
+  | _ :: d :: _ => d
+  | _ => 0
+
+/-- order of two source occurrences (`eq` iff the same occurrence) -/
+def cmpSite (p : Project) (a b : List Nat) : Ordering :=
+  if a == b then .eq else
+  match cmpStr (fileOf p (siteDecl a)) (fileOf p (siteDecl b)) with
+  | .eq =>
+    (match cmpLex cmpNat (siteKey a).1 (siteKey b).1 with
+     | .eq => cmpNat (siteKey a).2 (siteKey b).2
+     | o => o)
+  | o => o
+
+def valueRank : Value → Nat
+  | .var _ => 0
+  | .int _ => 1
+  | .bool _ => 2
+  | .str _ => 3
+  | .float _ => 4
+  | .null => 5
+  | .enum _ => 6
+  | .list _ => 7
+  | .object _ => 8
+
+mutual
+/-- `sc`: how the two occurrences compare (`eq`: the same occurrence) -/
+def cmpValue (sc : Ordering) : Value → Value → Ordering
+  | .var a, .var b => cmpStr a b
+  | .int a, .int b => compare a b
+  | .bool a, .bool b => cmpNat a.toNat b.toNat
+  | .str a, .str b => cmpStr a b
+  | .float a, .float b => cmpStr a b
+  | .null, .null => .eq
+  | .enum a, .enum b => cmpStr a b
+  | .list a, .list b => cmpItems sc a b
+  | .object a, .object b => cmpFields sc a b
+  | a, b => cmpNat (valueRank a) (valueRank b)
+def cmpItems (sc : Ordering) : List Value → List Value → Ordering
+  | [], [] => .eq
+  | [], _ :: _ => .lt
+  | _ :: _, [] => .gt
+  | x :: xs, y :: ys =>
+    match cmpValue sc x y with
+    | .eq => (match sc with | .eq => cmpItems sc xs ys | o => o)
+    | o => o
+def cmpFields (sc : Ordering) : List (String × Value) → List (String × Value) → Ordering
+  | [], [] => .eq
+  | [], _ :: _ => .lt
+  | _ :: _, [] => .gt
+  | (k1, v1) :: xs, (k2, v2) :: ys =>
+    match cmpStr k1 k2 with
+    | .eq =>
+      (match sc with
+       | .eq => (match cmpValue sc v1 v2 with | .eq => cmpFields sc xs ys | o => o)
+       | o => o)
+    | o => o
+end
+
+def cmpArg (p : Project) (a b : LArg) : Ordering :=
+  match cmpStr a.name b.name with
+  | .eq => cmpValue (cmpSite p a.site b.site) a.value b.value
+  | o => o
+
+def keyRank : KeyK → Nat
+  | .discriminator => 0
+  | .id => 1
+  | .serverField .. => 2
+  | .clientPointer .. => 3
+  | .inlineFragment _ => 4
+  | .panic => 5
+
+/-- `NormalizationKey: Ord` -/
+def cmpKey (p : Project) : KeyK → KeyK → Ordering
+  | .serverField n a, .serverField n' a' =>
+    (match cmpStr n n' with | .eq => cmpLex (cmpArg p) a a' | o => o)
+  | .clientPointer n a, .clientPointer n' a' =>
+    (match cmpStr n n' with | .eq => cmpLex (cmpArg p) a a' | o => o)
+  | .inlineFragment t, .inlineFragment t' => cmpStr t t'
+  | a, b => cmpNat (keyRank a) (keyRank b)
 
 end IsoVerif.Core.Merge
